@@ -180,6 +180,43 @@ theorem symbolize_respects_has_symbols_local (env : Env σ τ) (mode : Str) (sou
     have : l' = l := r.2.2.2 (fun ⟨m, hm, e, ht⟩ => ht ⟨hforce, hall m hm e⟩)
     rw [← this]; exact hl'
 
+/-- **Driver level** (`fetchProfiles`: Symbolize, RemoveUninteresting, unsourceMappings): for a
+profile without a drop_frames expression the fetched-and-symbolized profile has exactly the
+samples of the input (count, order, values, labels, location ids), every location keeps id,
+mapping and address, every mapping keeps id, start, limit and offset — nothing between fetching
+and reporting sums, drops or renumbers measurements, whatever the plug-ins answer. (With a
+drop_frames expression frames are pruned by name, which is the documented purpose of names.) -/
+theorem fetch_symbolize_measurements_untouched (env : Env σ τ) (prune : Profile → Profile)
+    (isAbsURL : Str → Bool) (mode : Str) (sources : Sources) (p : Profile) (s : σ) (t : τ) (q : Profile)
+    (hd : p.dropFrames = []) (h : fetchStep env prune isAbsURL mode sources p s t = some q) :
+    q.samples = p.samples ∧ q.sampleType = p.sampleType ∧
+    q.locations.map (fun l => (l.id, l.mappingID, l.address)) =
+      p.locations.map (fun l => (l.id, l.mappingID, l.address)) ∧
+    q.mappings.map (fun m => (m.id, m.start, m.limit, m.offset)) =
+      p.mappings.map (fun m => (m.id, m.start, m.limit, m.offset)) := by
+  have hf := symbolize_frame_condition env mode sources p s t
+  simp only [] at hf
+  obtain ⟨h1, h2, _, _, _, h6, _, _, _, _, _, h12, h13, _⟩ := hf
+  unfold fetchStep at h
+  simp only [] at h
+  split at h
+  · cases h
+  · rw [if_pos (by rw [h6]; exact hd)] at h
+    simp only [Option.some.injEq] at h
+    subst h
+    refine ⟨h1, h2, h12, ?_⟩
+    simp only [unsourceMappings, List.map_map]
+    have : p.mappings.map (fun m => (m.id, m.start, m.limit, m.offset)) =
+        ((symbolize env mode sources p s t).profile.mappings.map
+          (fun m => (m.id, m.start, m.limit, m.offset, m.file, m.buildID))).map
+          (fun x => (x.1, x.2.1, x.2.2.1, x.2.2.2.1)) := by
+      rw [h13, List.map_map]; rfl
+    rw [this, List.map_map]
+    apply List.map_congr_left
+    intro m _
+    simp only [Function.comp]
+    split <;> rfl
+
 /-- Mode `none`/`no` returns the profile as it is. -/
 theorem symbolize_none_identity (env : Env σ τ) (mode : Str) (sources : Sources) (p : Profile)
     (s : σ) (t : τ) (h : parseMode mode = none) : (symbolize env mode sources p s t).profile = p :=
@@ -333,5 +370,10 @@ example : (parseMode b!"local").map (·.force) = some false ∧
 -- functions would reach id 5 again; the repaired allocation continues above the largest id
 example : ((FTab.rescan { functions := [{ id := 5, name := [], systemName := [], filename := [], startLine := 0 }],
                           top := 0, wrapped := false }).alloc b!"f" [] 0).2 = 6 := by decide
+
+-- `fetch_symbolize_measurements_untouched`: its hypotheses hold for a fetch that really symbolizes
+example : exProfile.dropFrames = [] ∧
+    ((fetchStep exEnv id (fun _ => false) b!"local" [] exProfile () ()).map
+      (fun q => (q.samples.length, q.functions.length))) = some (1, 2) := by decide
 
 end PV.Props.C12
